@@ -20,6 +20,22 @@ func (a *Act) instr(st *State, b *ssa.BasicBlock, instr ssa.Instruction) {
 		a.curPos = instr.Pos()
 	}
 	a.cur = st
+	if a.contract != nil && len(a.contract.atAssumes) > 0 && instr.Pos().IsValid() {
+		_, src := a.srcLine(instr.Pos())
+		ns := normSrc(src)
+		for _, aa := range a.contract.atAssumes {
+			key := fmt.Sprintf("%p/%s", a, aa.src)
+			if aa.src == ns && !tr.atDone[key] {
+				if _, isDbg := instr.(*ssa.DebugRef); isDbg {
+					continue
+				}
+				tr.atDone[key] = true
+				e := &specEnv{a: a, tr: tr, pkg: a.contract.pkg, st: st, old: a.entryState, vars: map[string]specVal{}, errs: &tr.specErrs, preferLocals: true}
+				tr.assume(Implies(st.reach, e.evalBool(aa.cl.expr)), "assumed at «"+aa.src+"»: "+aa.cl.text)
+				tr.usedAssumed[fnName(a.fn)+" at «"+aa.src+"»: "+aa.cl.text] = true
+			}
+		}
+	}
 	switch in := instr.(type) {
 	case *ssa.DebugRef:
 	case *ssa.Phi:
@@ -253,6 +269,18 @@ func (a *Act) unop(st *State, in *ssa.UnOp) {
 		t := a.load(st, lv)
 		a.setVal(in, t)
 		a.assumeWF(st, in.Type(), a.vals[in], 1)
+		if lv.kind == lvField {
+			// the enclosing heap-resident struct satisfies its type invariant
+			b := lv.base
+			for b.kind == lvField {
+				b = b.base
+			}
+			if b.kind == lvCell || b.kind == lvElem {
+				if inv := tr.typeInvFor(b.typ, a.load(st, b), st); inv != "true" {
+					tr.assume(Implies(st.reach, inv), "type invariant of the enclosing "+typeStr(b.typ))
+				}
+			}
+		}
 	case token.NOT:
 		a.setVal(in, Not(a.val(in.X)))
 	case token.SUB:
